@@ -99,7 +99,7 @@ ANCHORS = [
     "trimesh/transformations.py:rotation_matrix",
 ]
 SHARDS = {"quick": 1, "thorough": 8}
-BUDGET = {"quick": 55, "thorough": 300}
+BUDGET = {"quick": 75, "thorough": 300}
 MIN_EVENTS = {"quick": 3000, "thorough": 12000}
 ASSUMPTIONS = [
     "copy.deepcopy(SceneGraph) preserves the state of every cache (checked: cached entries and the "
